@@ -312,6 +312,18 @@ func (s *IndexedState) add(ctx *Context, id string, x Map) (string, error) {
 		return id, err
 	}
 
+	// What the id holds might have expired and just not been purged
+	// yet.  Then this is not an overwrite: purge it, and what goes
+	// with it (its properties, like a rule's 'disabled' flag, and its
+	// other dependents), as any reader would have done.
+	if old, have := s.IdToFact[id]; have {
+		if expired, _ := checkExpiration(ctx, old, 0); expired {
+			if _, err = s.rem(ctx, id); err != nil {
+				return "", err
+			}
+		}
+	}
+
 	// If this id currently holds a rule, take that rule's 'when' out
 	// of the pattern index before the id is given its new content.
 	// Otherwise the old pattern keeps pointing at this id after the
